@@ -422,3 +422,54 @@ pub fn matches_replay(token: &[u8]) -> Option<String> {
     let f: u8 = p[4].parse().ok()?;
     matches_check(p[0], p[1], p[2], p[3], f & 1 == 1, f & 2 == 2)
 }
+
+// ------------------------------------------------------------------------------------------------ serde (C19), through serde_json
+pub fn serde_check(v: &[u8]) -> Option<String> {
+    if v.starts_with(b"json:") {
+        let j = String::from_utf8_lossy(&v[5..]).to_string();
+        let r = std::panic::catch_unwind(|| serde_json::from_str::<LanguageIdentifier>(&j).is_err());
+        return match r { Ok(true) => None, Ok(false) => Some(format!("the non-string JSON value {} deserialises to a LanguageIdentifier", j)),
+                         Err(_) => Some(format!("deserialising the non-string JSON value {} PANICKED", j)) };
+    }
+    let s = match std::str::from_utf8(v) { Ok(s) => s, Err(_) => return None };
+    let parsed = LanguageIdentifier::from_bytes(v).ok();
+    let json = serde_json::to_string(&serde_json::Value::String(s.to_string())).unwrap();
+    let de = std::panic::catch_unwind(|| serde_json::from_str::<LanguageIdentifier>(&json).ok());
+    let de = match de { Ok(d) => d, Err(_) => return Some(format!("deserialising the JSON string {} PANICKED", json)) };
+    if de != parsed { return Some(format!("deserialising {} gives {:?} but parsing \"{}\" gives {:?}", json, de.map(|l| l.to_string()), crate::esc(v), parsed.map(|l| l.to_string()))); }
+    let de2 = serde_json::from_value::<LanguageIdentifier>(serde_json::Value::String(s.to_string())).ok();
+    if de2 != parsed { return Some(format!("from_value(String(\"{}\")) gives {:?} but parsing gives {:?}", crate::esc(v), de2.map(|l| l.to_string()), parsed.map(|l| l.to_string()))); }
+    if let Some(l) = parsed {
+        let out = serde_json::to_string(&l).unwrap();
+        if out != format!("\"{}\"", l) { return Some(format!("\"{}\" serialises to {} (canonical string: \"{}\")", crate::esc(v), out, l)); }
+        if serde_json::from_str::<LanguageIdentifier>(&out).ok().as_ref() != Some(&l) { return Some(format!("serialised form {} does not deserialise to an equal value", out)); }
+        if serde_json::to_value(&l).unwrap() != serde_json::Value::String(l.to_string()) { return Some(format!("to_value of \"{}\" is not the canonical string", l)); }
+    }
+    None
+}
+/// bound: the language-identifier token space (heads en/und/EN/e x <= 3 subtags of the boundary-class alphabet) as JSON strings (with
+/// escapes where needed) and as serde_json::Value, plus 8 non-string JSON values
+pub fn serde_search() -> Option<(Vec<u8>, String)> {
+    for j in ["true", "1", "-1", "1.5", "null", "[\"en\"]", "{\"en\":1}", "[]"] {
+        let tok = format!("json:{}", j).into_bytes();
+        if let Some(d) = serde_check(&tok) { return Some((tok, d)); }
+    }
+    let a = crate::reference::alphabet();
+    let heads: Vec<&[u8]> = vec![b"en", b"und", b"EN", b"e", b"ca-ES", b"en\"x", b"en\\"];
+    let mut buf: Vec<u8> = vec![];
+    for h in &heads {
+        for n in 0..=2usize {
+            let mut idx = vec![0usize; n];
+            loop {
+                buf.clear();
+                buf.extend(*h);
+                for i in &idx { buf.push(b'-'); buf.extend(&a[*i]); }
+                if let Some(d) = serde_check(&buf) { return Some((buf.clone(), d)); }
+                let mut p = 0;
+                while p < n { idx[p] += 1; if idx[p] < a.len() { break; } idx[p] = 0; p += 1; }
+                if p == n { break; }
+            }
+        }
+    }
+    None
+}
